@@ -495,3 +495,19 @@ def _isinstance_guard(repo, f: FuncInfo, df: DataFlow, node_idx: int, pname: str
         return False
 
     return search(f.node.body, False)
+
+
+# ---- added after the seeded change C04-r3seed7: the propagation runs on the wave it was given
+_inner_run_c04 = run
+
+
+def run(ctx) -> None:  # noqa: F811
+    from . import c38
+
+    ctx.rule("R-COPYGUARD", "(shared with C38 and C02) the Fresnel propagation is a convolution through one "
+             "CachedFFTWConvolution per propagator: its cached FFTW plans may be executed only while bound (creation / "
+             "update_arrays) to the array of the current call.  A plan still bound to an earlier wave transforms that "
+             "buffer again — the intensity of the wave that is returned is whatever the stale buffer holds, so neither "
+             "intensity conservation nor propagate(+dz) o propagate(-dz) == identity hold")
+    c38._copyguard_cached(ctx, ctx.repo)
+    _inner_run_c04(ctx)
